@@ -616,6 +616,14 @@ class Ctx(object):
 # helpers on SVs
 
 
+def fixed_len(kind):
+    """n for a kind "list#n:<elem>" (fixed-arity sequence type), else None."""
+    head = (kind or "").split(":", 1)[0]
+    if head.startswith("list#"):
+        return int(head[5:])
+    return None
+
+
 def as_int(ctx, st, v, node=None):
     if v.k == "int":
         return v.z
@@ -1352,15 +1360,18 @@ class Exec(object):
             raise Unsupported("field type %s" % t, node)
         ctx.set_field_array(st, "val_" + key, z3.Store(arr, base.z, z))
 
-    def load_elem(self, st, base, idx, node):
+    def load_elem(self, st, base, idx, node, in_range=False):
         ctx = self.ctx
         ln = ctx.field_array(st, "len", AII)[base.z]
-        ctx.oblige(st, z3.And(idx >= -ln, idx < ln), "index-range", node, "list index in range")
         iz = z3.simplify(idx)
-        if z3.is_int_value(iz) and iz.as_long() < 0:
-            idx = ln + idx
-        elif not z3.is_int_value(iz):
-            idx = z3.If(idx < 0, ln + idx, idx)
+        if in_range:
+            pass  # loop counters: 0 <= idx < len by construction (no obligation, no negative-index normalisation)
+        else:
+            ctx.oblige(st, z3.And(idx >= -ln, idx < ln), "index-range", node, "list index in range")
+            if z3.is_int_value(iz) and iz.as_long() < 0:
+                idx = ln + idx
+            elif not z3.is_int_value(iz):
+                idx = z3.If(idx < 0, ln + idx, idx)
         v = ctx.field_array(st, "elem", AIA)[base.z][idx]
         kind = base.x or "list:int"
         sub = kind.split(":", 1)[1] if ":" in kind else "int"
@@ -1368,6 +1379,14 @@ class Exec(object):
             return mk_int(v)
         if sub == "bool":
             return mk_bool(v != 0)
+        # allocation model: every reference stored in the heap on entry denotes an object that existed on entry (> 0)
+        h0 = ctx.field_sorts.get("elem")
+        if h0 is not None:
+            ctx.assume(st, z3.Implies(z3.And(base.z > 0, v == h0[1][base.z][idx]), v > 0))
+        n = fixed_len(sub)
+        if n is not None:
+            # element type "list#n:...": a sequence type of fixed arity (e.g. a 3-field namedtuple); part of the declared type
+            ctx.assume(st, ctx.field_array(st, "len", AII)[v] == n)
         return mk_ref(v, sub)
 
     def store_elem(self, st, base, idx, val, node):
